@@ -318,6 +318,19 @@ impl KeyMaterial {
     Ok(KeyMaterial { proto, sym: Some(k), ed_sk: None, ed_pk: None, p_sk: None, p_pk: None, rsa_sk: None, rsa_pk: None })
   }
 
+  /// Parse-side key built by `Key::<32>::from(&[u8])` from material of ANY length (the library panics on a wrong
+  /// length at the pinned commit; a panic is reported as Err). Local protocols: the symmetric key; v2/v4 public: the public key.
+  pub fn from_slice_any_length(proto: Proto, material: &[u8]) -> Result<KeyMaterial, LibErr> {
+    let k = crate::engine::catch(|| Key::<32>::from(material)).map_err(|(loc, msg)| LibErr::other(format!("Key::from(&[u8]) panicked at {loc}: {msg}")))?;
+    let mut km = KeyMaterial { proto, sym: None, ed_sk: None, ed_pk: None, p_sk: None, p_pk: None, rsa_sk: None, rsa_pk: None };
+    match proto {
+      p if p.is_local() => km.sym = Some(k),
+      Proto::V2P | Proto::V4P => km.ed_pk = Some(k),
+      _ => return Err(LibErr::other("not a 32-byte key protocol")),
+    }
+    Ok(km)
+  }
+
   pub fn local(proto: Proto, key: &[u8; 32]) -> KeyMaterial {
     KeyMaterial::new(proto, Some(key), key).expect("32 bytes")
   }
@@ -565,6 +578,34 @@ pub enum NativeVal {
   UnitEnum(u8),
   NewtypeEnum(String),
   StructEnum { x: i16, y: i16 },
+  /// f32 / f64 given as a decimal text of at most 6 / 15 significant digits (so that the shortest decimal that
+  /// identifies the float is that text, as a number)
+  F32(String),
+  F64(String),
+  VecF32(Vec<String>),
+  /// struct with f32 / f64 fields
+  Measure { ratio: String, weights: Vec<String>, scale: String },
+  /// i128 / u128 holding a value that fits 64 bits
+  I128(i64),
+  U128(u64),
+}
+
+#[derive(Serialize)]
+struct NativeMeasure {
+  ratio: f32,
+  weights: Vec<f32>,
+  scale: f64,
+}
+
+fn f32_of(s: &str) -> f32 {
+  s.parse::<f32>().unwrap_or(0.0)
+}
+fn f64_of(s: &str) -> f64 {
+  s.parse::<f64>().unwrap_or(0.0)
+}
+/// JSON number for a float given as decimal text (always a float number, as serde_json writes `2.0` for 2f32)
+fn float_json(s: &str) -> Value {
+  serde_json::Number::from_f64(f64_of(s)).map(Value::Number).unwrap_or(Value::Null)
 }
 
 #[derive(Serialize)]
@@ -619,6 +660,12 @@ impl<'a> Serialize for NativeSer<'a> {
       .serialize(s),
       NativeVal::NewtypeEnum(l) => Shape::Label(l).serialize(s),
       NativeVal::StructEnum { x, y } => Shape::Point { x: *x, y: *y }.serialize(s),
+      NativeVal::F32(t) => f32_of(t).serialize(s),
+      NativeVal::F64(t) => f64_of(t).serialize(s),
+      NativeVal::VecF32(v) => v.iter().map(|t| f32_of(t)).collect::<Vec<f32>>().serialize(s),
+      NativeVal::Measure { ratio, weights, scale } => NativeMeasure { ratio: f32_of(ratio), weights: weights.iter().map(|t| f32_of(t)).collect(), scale: f64_of(scale) }.serialize(s),
+      NativeVal::I128(v) => (*v as i128).serialize(s),
+      NativeVal::U128(v) => (*v as u128).serialize(s),
     }
   }
 }
@@ -657,6 +704,11 @@ impl NativeVal {
       NativeVal::UnitEnum(i) => Value::String(["Red", "Green", "Blue"][(*i % 3) as usize].to_string()),
       NativeVal::NewtypeEnum(l) => json!({ "Label": l }),
       NativeVal::StructEnum { x, y } => json!({"Point": {"x": *x as i64, "y": *y as i64}}),
+      NativeVal::F32(t) | NativeVal::F64(t) => float_json(t),
+      NativeVal::VecF32(v) => Value::Array(v.iter().map(|t| float_json(t)).collect()),
+      NativeVal::Measure { ratio, weights, scale } => json!({"ratio": float_json(ratio), "weights": weights.iter().map(|t| float_json(t)).collect::<Vec<_>>(), "scale": float_json(scale)}),
+      NativeVal::I128(v) => json!(*v),
+      NativeVal::U128(v) => json!(*v),
     }
   }
 }
